@@ -544,6 +544,26 @@ def run_history(fns, ops, lookups=True):
                                  % (op[0], op[1] if len(op) > 1 else "-", i,
                                     "" if outcome in ("ok", "L") else " although it raised " + outcome),
                                  "changed", "unchanged"))
+        # a deleted child is gone: not stored (visible or hidden), not found, and deleting it again raises KeyError
+        if outcome == "ok" and op[0] == "del":
+            try:
+                cont = w.nav(op[1], op[2])
+                qk = _quote(op[3])
+                still = []
+                if qk in list(cont._all_keys()):
+                    still.append("still stored")
+                try:
+                    cont[op[3]]
+                    still.append("still found by name")
+                except KeyError:
+                    pass
+                except Exception as e:
+                    still.append("lookup raises " + type(e).__name__)
+                if still:
+                    problems.append((n, "del %r returned normally but the child is %s" % (op[3], ", ".join(still)),
+                                     still, "KeyError on lookup; not among the stored keys"))
+            except Exception:
+                pass
         # invariant + separation
         inv_ok = True
         for i in w.live():
